@@ -282,3 +282,111 @@ Proof. vm_compute. repeat split; reflexivity. Qed.
 Example ghost_bn_train_mode_is_not_rowwise :
   firstn 1 (ghost_bn (bn_train z_ops 1) 2 [[1]; [3]; [5]]%Z) <> ghost_bn (bn_train z_ops 1) 2 [[1]]%Z.
 Proof. vm_compute. discriminate. Qed.
+
+(* ================================================================================================== *)
+(* The feature-encoder hypothesis DISCHARGED for the built-in stype encoders (C13's per-cell theorem)  *)
+(* ================================================================================================== *)
+(* The theorems above take the feature encoder as an argument Enc with the hypothesis `acts_rowwise Enc enc_r`.
+   For the nine built-in stype-encoder classes of stype_encoder.py (LinearEncoder, StackEncoder,
+   ExcelFormerEncoder, LinearPeriodicEncoder, LinearBucketEncoder, EmbeddingEncoder,
+   MultiCategoricalEmbeddingEncoder, LinearEmbeddingEncoder, TimestampEncoder) that hypothesis is a THEOREM:
+   Model/Encoders.v models their forward as written (NA handling, per-column loops, einsum, bucket search and
+   fraction, sin/cos features, nan_to_num, post-module) and Proofs/EncodersProofs.v proves it cell-wise.  Below,
+   the C14 glue is instantiated over C13's scalars X (car S) (a float or NaN), its own operations O arbitrary, and
+   the encoder stage is C13's `forward`: NO hypothesis about the encoder is left.  `None` = the call raises
+   (a row of the wrong width or a cell outside an encoder's domain): the batch raises iff some row does. *)
+From Coq Require Import QArith.
+From PF Require Import Lib.ListX Gen.Tables Model.Encoders Proofs.EncodersProofs Proofs.LayersEncoders.
+Local Close Scope Q_scope.
+Local Open Scope nat_scope.
+
+(* any single built-in encoder: its forward is the row-by-row evaluation of enc_row *)
+Theorem builtin_encoder_is_rowwise : forall (S : Scalar) (c : config S) (x : input S),
+  wf_config S c -> input_ok S c x -> construct_ok S c = true ->
+  forward S c x = opt_all (map (enc_row S c) (cells S (cf_stats S c) x)).
+Proof. exact builtin_encoder_rowwise. Qed.
+
+(* StypeWiseFeatureEncoder on a frame with two stypes (each stype's encoder on its block, torch.cat(dim=1)) *)
+Theorem two_stype_feature_encoder_is_rowwise : forall (S : Scalar) c1 x1 c2 x2,
+  wf_config S c1 -> input_ok S c1 x1 -> construct_ok S c1 = true ->
+  wf_config S c2 -> input_ok S c2 x2 -> construct_ok S c2 = true ->
+  length (cells S (cf_stats S c1) x1) = length (cells S (cf_stats S c2) x2) ->
+  stypewise2 S c1 x1 c2 x2 =
+  opt_all (map (enc_row2 S c1 c2) (combine (cells S (cf_stats S c1) x1) (cells S (cf_stats S c2) x2))).
+Proof. exact stypewise2_rowwise. Qed.
+
+(* MLP / ResNet / FT-Transformer / TabNet behind the two-stype feature encoder, ExcelFormer behind its numerical
+   encoder: the prediction of the batch is the row-by-row prediction, for ANY of the encoder classes
+   (in particular LinearBucketEncoder and LinearPeriodicEncoder), any NA strategy, any batch size. *)
+Theorem mlp_with_builtin_encoders_rowwise : forall (S : Scalar) (O : Ops (X (car S))) C Mlp mlp_r c1 x1 c2 x2,
+  acts_rowwise Mlp mlp_r -> enc_side S c1 x1 c2 x2 ->
+  option_map (mlp_forward O C (fun e => e) Mlp) (stypewise2 S c1 x1 c2 x2) =
+  opt_all (map (fun row => option_map (mlp_row O C (fun e => e) mlp_r) (enc_row2 S c1 c2 row))
+               (frame_rows S c1 x1 c2 x2)).
+Proof. exact mlp_after_encoders. Qed.
+
+Theorem resnet_with_builtin_encoders_rowwise : forall (S : Scalar) Backbone backbone_r Dec dec_r c1 x1 c2 x2,
+  Forall2 acts_rowwise Backbone backbone_r -> acts_rowwise Dec dec_r -> enc_side S c1 x1 c2 x2 ->
+  option_map (resnet_forward (fun e => e) Backbone Dec) (stypewise2 S c1 x1 c2 x2) =
+  opt_all (map (fun row => option_map (resnet_row (fun e => e) backbone_r dec_r) (enc_row2 S c1 c2 row))
+               (frame_rows S c1 x1 c2 x2)).
+Proof. exact resnet_after_encoders. Qed.
+
+Theorem ft_with_builtin_encoders_rowwise : forall (S : Scalar) (cls : list (X (car S))) TE te_r Dec dec_r c1 x1 c2 x2,
+  acts_rowwise TE te_r -> acts_rowwise Dec dec_r -> enc_side S c1 x1 c2 x2 ->
+  match stypewise2 S c1 x1 c2 x2 with Some E => ft_forward (fun e => e) cls TE Dec E | None => None end =
+  opt_all (map (fun row => match enc_row2 S c1 c2 row with Some E => ft_row (fun e => e) cls te_r dec_r E | None => None end)
+               (frame_rows S c1 x1 c2 x2)).
+Proof. exact ft_after_encoders. Qed.
+
+Theorem tabnet_with_builtin_encoders_rowwise :
+  forall (S : Scalar) (O : Ops (X (car S))) Bn0 bn0 Ft0 ft0 split vbs Steps steps Lin lin c1 x1 c2 x2,
+  0 < vbs -> steps <> [] -> acts_rowwise Bn0 bn0 -> acts_rowwise Ft0 ft0 ->
+  Forall2 (step_rowwise (R := X (car S))) Steps steps -> acts_rowwise Lin lin -> enc_side S c1 x1 c2 x2 ->
+  match stypewise2 S c1 x1 c2 x2 with Some E => tabnet_forward O (fun e => e) Bn0 Ft0 split vbs Steps Lin E | None => None end =
+  opt_all (map (fun row => match enc_row2 S c1 c2 row with
+                           | Some E => tabnet_row O (fun e => e) bn0 ft0 split steps lin E
+                           | None => None
+                           end) (frame_rows S c1 x1 c2 x2)).
+Proof. exact tabnet_after_encoders. Qed.
+
+Theorem excel_with_builtin_encoder_rowwise : forall (S : Scalar) Convs convs_r Dec dec_r (c : config S) (x : input S),
+  Forall2 acts_rowwise_opt Convs convs_r -> acts_rowwise Dec dec_r ->
+  wf_config S c -> input_ok S c x -> construct_ok S c = true ->
+  match forward S c x with Some E => excel_forward (fun e => e) Convs Dec E | None => None end =
+  opt_all (map (fun row => match enc_row S c row with Some E => excel_row (fun e => e) convs_r dec_r E | None => None end)
+               (cells S (cf_stats S c) x)).
+Proof. exact excel_after_encoder. Qed.
+
+Print Assumptions builtin_encoder_is_rowwise.
+Print Assumptions two_stype_feature_encoder_is_rowwise.
+Print Assumptions mlp_with_builtin_encoders_rowwise.
+Print Assumptions resnet_with_builtin_encoders_rowwise.
+Print Assumptions ft_with_builtin_encoders_rowwise.
+Print Assumptions tabnet_with_builtin_encoders_rowwise.
+Print Assumptions excel_with_builtin_encoder_rowwise.
+
+(* the hypotheses are satisfiable and the statement is not vacuous: a LinearBucketEncoder (a tie-heavy second
+   column: all quantiles equal) and a LinearPeriodicEncoder over the rationals, missing cells present, an MLP head
+   that reverses the pooled vector; the batch result is computed and equals the row-by-row result *)
+Definition xq_ops : Ops (X Q) :=
+  mkOps _ (XFin 0%Q) (XFin 1%Q) (xadd QS) (xmul QS) (xdiv QS) (fun _ x => x) (XFin (-100000)%Q).
+
+Example mlp_behind_bucket_and_periodic_encoders :
+  let st := [qcs (XFin (3 # 2)%Q) (XFin 2%Q) (map XFin [-3; 0; 1; 2; 8]%Q) 3 1999%Z [] [] [] 2;
+             qcs (XFin (-4)%Q) (XFin 0%Q) (map XFin [-4; -4; -4; -4; -4]%Q) 1 1999%Z [] [] [] 1] in
+  let feat : mat (X Q) := [[XFin 1; XNaN]; [XNaN; XFin (-4)]; [XFin 100; XFin 2]]%Q in
+  let cb := qconfig (EBucket QS [gmat 0 0 4 2; gmat 0 1 4 2] (gmat 1 0 2 2)) st 2 (Some na_MEAN) in
+  let cp := qconfig (EPeriodic QS (gmat 0 0 2 1) [gmat 0 0 2 2; gmat 0 1 2 2]) st 2 None in
+  enc_side QS cb (InNum QS feat) cp (InNum QS feat) /\
+  (exists Y, option_map (mlp_forward xq_ops 2 (fun e => e) (map (@rev (X Q)))) (stypewise2 QS cb (InNum QS feat) cp (InNum QS feat))
+             = Some Y /\ length Y = 3) /\
+  option_map (mlp_forward xq_ops 2 (fun e => e) (map (@rev (X Q)))) (stypewise2 QS cb (InNum QS feat) cp (InNum QS feat)) =
+  opt_all (map (fun row => option_map (mlp_row xq_ops 2 (fun e => e) (@rev (X Q))) (enc_row2 QS cb cp row))
+               (frame_rows QS cb (InNum QS feat) cp (InNum QS feat))).
+Proof.
+  cbv zeta. split; [|split].
+  - unfold enc_side. vm_compute. repeat split; reflexivity.
+  - eexists. split; vm_compute; reflexivity.
+  - vm_compute. reflexivity.
+Qed.
